@@ -105,6 +105,18 @@ Theorem C06_delete_clears_oci : forall h1 d,
 Proof. exact oci_delete_clears. Qed.
 Print Assumptions C06_delete_clears_oci.
 
+(* OCI: content never pushed successfully is absent; fetching, tagging or deleting it is not-found *)
+Theorem C06_absent_notfound_oci : forall h g,
+  (forall d c, In (Push d c) h -> d_dig d <> g) ->
+  let s := fst (run oci_step oci_init h) in
+  get N.eqb g (o_blobs s) = None /\
+  forall d r, d_dig d = g -> snd (oci_step s (Fetch d)) = OErr ENotFound /\
+                             (r <> REmpty -> snd (oci_step s (Tag d r)) = OErr ENotFound) /\
+                             snd (oci_step s (Exists d)) = OBool false /\
+                             snd (oci_step s (Delete d)) = OErr ENotFound.
+Proof. exact oci_never_pushed_absent. Qed.
+Print Assumptions C06_absent_notfound_oci.
+
 (* OCI: Store.delete walks a Go map; for every iteration order of the snapshot the
    surviving references are exactly those not content.Equal to the target *)
 Theorem C06_delete_order_free : forall k snap t r,
